@@ -166,6 +166,49 @@ fn presence_monotone(h: &[Single]) -> bool {
     true
 }
 
+/// The expiry group with writers: K exists with a deadline, the clock only moves forward, an eviction pass runs, and
+/// clients re-create K with plain SETs (no deadline) on any path. Nobody deletes. So (1) every read invoked after an
+/// acknowledged SET sees K present, and without a deadline; (2) a read that sees K present after an earlier read saw it
+/// gone needs a SET that can lie between the two.
+fn expiry_with_writers(h: &[Single]) -> bool {
+    let name = |s: &Single| String::from_utf8_lossy(&s.cmd[0]).to_ascii_uppercase();
+    let is_write = |s: &Single| name(s) == "SET";
+    let gone = |s: &Single| -> Option<bool> {
+        match name(s).as_str() {
+            "EXISTS" => Some(s.reply == ":0"),
+            "TTL" | "PTTL" => Some(s.reply == ":-2"),
+            "GET" => Some(s.reply == "$nil" || s.reply == "nil" || s.reply.starts_with("$-1") || s.reply == "(nil)"),
+            "TYPE" => Some(s.reply == "+none"),
+            _ => None,
+        }
+    };
+    let writes: Vec<&Single> = h.iter().filter(|s| is_write(s)).collect();
+    if writes.is_empty() {
+        return presence_monotone(h);
+    }
+    for w in &writes {
+        if w.reply != "+OK" {
+            return false;
+        }
+        for b in h {
+            if precedes(w, b) && (gone(b) == Some(true) || (name(b) == "TTL" && b.reply != ":-1")) {
+                return false;
+            }
+        }
+    }
+    for a in h {
+        if gone(a) != Some(true) {
+            continue;
+        }
+        for b in h {
+            if precedes(a, b) && gone(b) == Some(false) && writes.iter().all(|w| precedes(b, w) || precedes(w, a)) {
+                return false;
+            }
+        }
+    }
+    true
+}
+
 /// a must precede b in any linearization
 fn precedes(a: &Single, b: &Single) -> bool {
     if a.client == b.client {
@@ -474,7 +517,7 @@ fn main() {
             }
             RunResult::Done(h) => {
                 println!("history: {}", hist_key(&h));
-                if if sc.expiry { presence_monotone(&h) } else { linearizable(&h) } {
+                if if sc.expiry { expiry_with_writers(&h) } else { linearizable(&h) } {
                     println!("replay: linearizable, no violation");
                     std::process::exit(0);
                 }
@@ -527,6 +570,9 @@ fn main() {
         // pass (evict_expired_all_shards) runs next to 2 clients x 2 reads over every read path; once a read has seen K gone, no
         // later read may see it again
         ("expiry: every home, 2clients x 2 reads of a key whose deadline passes, eviction pass alongside, 2 shards", 2, 2, 2, if thorough { vec![0, 3, 5, OPS.iter().position(|o| *o == "X EXISTS K").unwrap(), OPS.iter().position(|o| *o == "X TTL K").unwrap()] } else { vec![3, 5, OPS.iter().position(|o| *o == "X EXISTS K").unwrap(), OPS.iter().position(|o| *o == "X TTL K").unwrap()] }, NONE, NONE),
+        // the same with writers: clients re-create K (plain SET on the generic, fast and pooled paths) while its deadline passes and
+        // the eviction pass runs; an acknowledged SET is there for every later read
+        ("expiry: every home, 2clients x 2ops re-creating and reading a key whose deadline passes, eviction pass alongside, 2 shards", 2, 2, 2, if thorough { vec![1, 4, 6, 3, 0, OPS.iter().position(|o| *o == "X TTL K").unwrap()] } else { vec![1, 4, 6, 3] }, NONE, NONE),
     ];
     if thorough {
         groups.push(("3clients x 1op, 1 shard", 1, 3, 1, all.clone(), NONE, NONE));
@@ -589,7 +635,7 @@ fn main() {
                         RunResult::Done(h) => {
                             let key = hist_key(&h);
                             distinct_reply_vectors.insert(h.iter().map(|s| s.reply.clone()).collect::<Vec<_>>().join("|"));
-                            let ok = *memo.entry(key.clone()).or_insert_with(|| if sc.expiry { presence_monotone(&h) } else { linearizable(&h) });
+                            let ok = *memo.entry(key.clone()).or_insert_with(|| if sc.expiry { expiry_with_writers(&h) } else { linearizable(&h) });
                             if !ok {
                                 rep.violation(
                                     format!("non-linearizable paths={}", paths_of(sc)),
